@@ -226,10 +226,17 @@ class Ctx:
             if self.expr(c, a) != want:
                 return None
         self.__dict__.setdefault("_transparent_caller", set()).add(key)
+        self.__dict__.setdefault("_caller_body", {})[key] = c
         res = self.pc_strs(c, blk)
         res = [set(d) for d in res if d] or None
         cache[key] = res
         return res
+
+    def caller_of(self, body):
+        """the function a private single-call-site helper was cut out of (None otherwise)"""
+        if self.has_transparent_caller(body):
+            return self.__dict__.get("_caller_body", {}).get(body.key)
+        return None
 
     def has_transparent_caller(self, body):
         """a private helper with one call site that hands its own parameters on unchanged"""
